@@ -136,6 +136,28 @@ impl Scen {
         }
     }
 
+    /// Polls `pred`; gives up only when the mark log has not grown for `idle` (a loaded machine makes
+    /// sessions slow, it does not make them silent) or after `idle * 12` in total.
+    pub fn wait_progress(&self, idle: Duration, mut pred: impl FnMut(&MarkLog) -> bool) -> bool {
+        let start = Instant::now();
+        let mut last_len = self.log.recs.lock().unwrap().len();
+        let mut last_change = Instant::now();
+        loop {
+            if pred(&self.log) {
+                return true;
+            }
+            let l = self.log.recs.lock().unwrap().len();
+            if l != last_len {
+                last_len = l;
+                last_change = Instant::now();
+            }
+            if last_change.elapsed() > idle || start.elapsed() > idle * 12 {
+                return pred(&self.log);
+            }
+            std::thread::sleep(Duration::from_micros(500));
+        }
+    }
+
     pub fn cancel_all(&self) {
         for s in &self.sessions {
             let _ = s.sender.send(Box::new(Event::new_simple("error.platform.cancel")));
